@@ -54,6 +54,7 @@ func H_GinConc() {
 		req := (&nethttp.Request{Method: "GET", URL: &url.URL{Path: "/x"}, Header: nethttp.Header{}}).WithContext(context.WithValue(context.Background(), "req", id))
 		res[id].panicked, _ = guard(func() { engine.ServeHTTP(&rw{}, req) })
 	}
+	vrt.RaceDetect(true)
 	vrt.Go("req0", func() { serve(0) })
 	vrt.Go("req1", func() { serve(1) })
 	vrt.WaitAll()
